@@ -2,6 +2,7 @@ import HcipyVerif.Lemmas.ApertureMain
 import HcipyVerif.Lemmas.AperturePolygon
 import HcipyVerif.Lemmas.ApertureKeck
 import HcipyVerif.Lemmas.AperturePolar
+import HcipyVerif.Lemmas.AperturePolarFloat
 import HcipyVerif.Lemmas.ApertureStat
 
 /-!
@@ -106,6 +107,37 @@ theorem polar_circle_negative_diameter_counterexample :
     exact evalPolar_negative_radius.1
   · rw [evalPolar_negative_radius.2.1, evalPolar_negative_radius.2.2]
     decide
+
+/-! #### … on the direction cosines the code really has (floats: not exactly a unit vector)
+
+`PolarPt` above asks for `cos² + sin² = 1` exactly; that is false for almost every float pair
+`(cos θ, sin θ)` the driver is sent.  `diskAgree s q` (Model; computed by the driver for every point of
+every polar request) is the decidable condition that carries the statement instead. -/
+
+/-- **The polar code path computes the point semantics wherever the radius shortcuts agree with the
+Cartesian test** — no hypothesis on the direction cosines, the rotations or the radii. -/
+theorem polar_path_eq_inside_float (s : Shape) (qs : List PPt) (h : ∀ q ∈ qs, diskAgree s q = true) :
+    evalPolar s qs = (qs.map toCart).map (val s) :=
+  evalPolar_eq_val_of_agree s qs h
+
+/-- **… and they agree except within one rounding error of the rim**: if `cos² + sin²` is within `ε`
+of 1 then `r ≤ R` and `(r cos)² + (r sin)² ≤ R²` agree whenever `ε·r² < |r² − R²|`. -/
+theorem polar_float_rim {R ε : Rat} (hR : 0 ≤ R) {q : PPt} (hr : 0 ≤ q.1)
+    (hn : |q.2.1 * q.2.1 + q.2.2 * q.2.2 - 1| ≤ ε) (hfar : ε * sq q.1 < |sq q.1 - sq R|) :
+    diskAgree (.disk R) q = true :=
+  diskAgree_of_far hR hr hn hfar
+
+/-- `PolarGrid.rotate` on float cosines multiplies the squared norm of the direction by the squared
+norm of the rotation (so `ε` grows to at most `2ε + ε²` per rotation) -/
+theorem polar_rotate_norm (c s : Rat) (q : PPt) :
+    (rotDir c s q).2.1 * (rotDir c s q).2.1 + (rotDir c s q).2.2 * (rotDir c s q).2.2
+      = (c * c + s * s) * (q.2.1 * q.2.1 + q.2.2 * q.2.2) :=
+  rotDir_norm c s q
+
+/-- the exact case: a unit direction and a radius ≥ 0 always agree -/
+theorem polar_exact_agrees {R : Rat} (hR : 0 ≤ R) {q : PPt} (hq : PolarPt q) :
+    diskAgree (.disk R) q = true :=
+  diskAgree_of_polarPt hR hq
 
 /-- **Index theorem** (`fast_eq_slow` for every maker): at flat index `iy·Nx + ix` the separated
 path holds exactly the value at the point `(x[ix], y[iy])`. -/
@@ -521,6 +553,13 @@ example : ∀ q ∈ [((0 : Rat), (1 : Rat), (0 : Rat)), (2, 3/5, -4/5)], PolarPt
 
 example : ∃ f, supersampledStat .max (.circle 1 0 0) 2 1 [0, 1] [0, 1, 2] = .ok f :=
   (supersampledStat_isOk_iff .max _ 2 1 [0, 1] [0, 1, 2]).mpr (by simp)
+
+example : ∀ q ∈ [((2 : Rat), (3/5 : Rat), (4/5 + 1/1000 : Rat)), (1/2, 1, 1/1000)],
+    diskAgree (.sub (.disk 1) (.disk (1/4))) q = true := by decide +kernel
+
+example : |(3/5 : Rat) * (3/5) + (4/5 + 1/1000) * (4/5 + 1/1000) - 1| ≤ 1/500 ∧
+    (1/500 : Rat) * sq 2 < |sq 2 - sq 1| := by
+  unfold sq; constructor <;> norm_num [abs_le, abs_of_pos]
 
 example : (vltSegment 3 (vltLines [((-1, -1), (-4, 0)), ((-1, -1), (0, -4)), ((1, 1), (4, 0)), ((1, 1), (0, 4))])
     (vltShape 4 (1/2) [] none) none).isSome = true := by decide +kernel
